@@ -29,7 +29,8 @@ RULE = ("histories of 1-60 generate(n)/skip(n) requests on one generator "
         "generator fetches one stretch in 300-6000 consecutive requests of 1-3 "
         "samples (a per-symbol simulator loop) starting at positions 1..1e10 and "
         "decides its tail against the model and the whole stretch against ONE "
-        "request of a twin generator.")
+        "request of a twin generator."
+        "Shape 1 (int) is a shape of its own; one case in seven makes requests of several million ray samples in the quick tier. ")
 ASSUMPTIONS = [
     "sample k is compared within sqrt(L) (2 pi Fd t_k eps 40 + 1e-12): any "
     "implementation that forms k*Ts in double meets it, a relative drift of "
@@ -75,9 +76,9 @@ def build(rng, seed, Fd, Ts, L, shape):
     return g, rec
 
 
-SHAPES = [None, 3, (2,), (3, 2)]
+SHAPES = [None, 3, (2,), (3, 2), 1]      # (the int 1 is a shape of its own: (1, n) samples)
 # shapes assigned later: also same rank / same number of links, other entries
-SHAPES_SET = SHAPES + [(2, 3), (6,), (1, 6), (3,), (1, 2)]
+SHAPES_SET = SHAPES + [(2, 3), (6,), (1, 6), (3,), (1, 2), (1,), (1, 1)]
 TS = [1e-9, 3.25e-8, 1e-4, 1e-3, 0.37, 1.0]
 NS = [1, 2, 3, 7, 100, 1000, 100000]
 
@@ -179,7 +180,9 @@ def case_history(ctx, rng, idx):
         n = NS[int(rng.integers(0, len(NS)))]
         if rng.random() < 0.35:
             n = int(10.0 ** rng.uniform(0, 5.3))      # arbitrary, not round, sizes
-        while n * L * cells > (4e6 if ctx.tier == "thorough" else 3e5):
+        # (one case in seven also makes requests of several million ray samples
+        #  in the quick tier: the size at which an implementation may switch path)
+        while n * L * cells > (4e6 if ctx.tier == "thorough" or idx % 7 == 3 else 3e5):
             n //= 10
         n = max(n, 1)
         use_none = n == 1 and rng.random() < 0.3
